@@ -16,12 +16,13 @@ use std::io::Write;
 fn producer(seed: u64, s: Sender<BddNode>, max_nodes: usize) -> Bdd {
     let mut rng = StdRng::seed_from_u64(seed);
     let mut bdd = Bdd::with_sender(s);
-    let nv = rng.gen_range(2..=4);
+    // long streams need room: more variables, more attempts
+    let nv = if max_nodes > 60 { rng.gen_range(6..=9) } else { rng.gen_range(2..=4) };
     for v in 0..nv {
         bdd.variable(Var(v));
     }
     let mut guard = 0;
-    while bdd.nodes.len() < max_nodes + 2 && guard < 200 {
+    while bdd.nodes.len() < max_nodes + 2 && guard < 200usize.max(max_nodes * 6) {
         guard += 1;
         let n = bdd.nodes.len();
         let a = Term(rng.gen_range(0..n));
@@ -144,13 +145,24 @@ fn threads(id: String, seed: u64, max_nodes: usize) -> Value {
         recv
     });
     let prod_nodes = prod_h.join().unwrap();
-    let mut relay = relay_h.join().unwrap();
+    let relay = relay_h.join().unwrap();
     let mut recv = recv_h.join().unwrap();
     drop(so);
     let mut steps: Vec<Value> = ro.try_iter().collect();
     // quiescence: producer is done; drain the chain
     let last = prod_nodes.len() + 5;
-    let f1 = relay.recv(Term(last));
+    // the relay may still hold unforwarded messages and its channel to the receiver may be bounded: drain it in a thread of its own
+    // while the receiver keeps polling (a harness that drained both in one thread would block itself)
+    let drain_h = std::thread::spawn(move || {
+        let mut relay = relay;
+        let f1 = relay.recv(Term(last));
+        (relay, f1)
+    });
+    while !drain_h.is_finished() {
+        recv.recv(Term(last));
+        std::thread::yield_now();
+    }
+    let (mut relay, f1) = drain_h.join().unwrap();
     steps.push(json!({"a": "relay", "seq": 100000, "h": last, "found": f1, "nodes": nodes_json(&relay)}));
     let f2 = recv.recv(Term(last));
     steps.push(json!({"a": "recv", "seq": 100001, "h": last, "found": f2, "nodes": nodes_json(&recv)}));
@@ -236,10 +248,32 @@ pub fn main(args: &[String]) {
         recs.push(guard(Box::new(move || scheduled(id2, seed, mn, &sched)), id));
         count += 1;
     }
+    // (2b) long streams (100-400 nodes) forwarded in bursts of 1-80 messages between the polls
+    let nlong = if tier == "thorough" { 60 } else if tier == "feat" { 2 } else { 6 };
+    for k in 0..nlong {
+        let mn = if tier == "thorough" { rng.gen_range(100..=400) } else { rng.gen_range(100..=260) };
+        let mut sched: Vec<Step> = Vec::new();
+        for _ in 0..rng.gen_range(6..=14) {
+            let burst = [1, 2, 7, 31, 32, 33, 63, 64, 65, 80][rng.gen_range(0..10)];
+            for _ in 0..burst {
+                sched.push(Step::Fwd);
+            }
+            for _ in 0..rng.gen_range(0..3) {
+                let h = if rng.gen_bool(0.5) { rng.gen_range(0..mn + 4) } else { sched.len() / 2 + rng.gen_range(0..6) };
+                sched.push(if rng.gen_bool(0.6) { Step::Relay(h) } else { Step::Recv(h) });
+            }
+        }
+        let seed: u64 = rng.gen();
+        let id = format!("L{}", k);
+        let id2 = id.clone();
+        recs.push(guard(Box::new(move || scheduled(id2, seed, mn, &sched)), id));
+        count += 1;
+    }
     // (3) free-running threads
     let nthr = if tier == "thorough" { 400 } else if tier == "feat" { 18 } else { 60 };
     for k in 0..nthr {
-        let mn = rng.gen_range(4..=30);
+        // a few free-running runs stream several hundred nodes
+        let mn = if k % 30 == 29 { rng.gen_range(120..=200) } else { rng.gen_range(4..=30) };
         let seed: u64 = rng.gen();
         let id = format!("t{}", k);
         let id2 = id.clone();
